@@ -317,6 +317,8 @@ class Canon:
             return t
         if op == "modconst":
             return self.canon(a[1])
+        if op == "assume":
+            return self.canon(a[1])
         if op == "binop":
             o, l, r = a
             if o in ("+", "-", "*", "/"):
